@@ -10,6 +10,7 @@ mod m_c04pkt;
 mod pkt;
 mod m_c16grid;
 mod m_c20;
+mod m_recv;
 mod m_faults;
 mod m_run;
 mod m_state;
@@ -76,6 +77,7 @@ fn main() {
         "state" => m_state::run(&args, &mut out),
         "tsops" => m_tsops::run(&args, &mut out),
         "c20" => m_c20::run(&args, &mut out),
+        "recv" => m_recv::run(&args, &mut out),
         "c16grid" => m_c16grid::run(&args, &mut out),
         other => { eprintln!("unknown mode {other}"); std::process::exit(2); }
     }
